@@ -4,6 +4,8 @@ CONSTANTS
   Redispatch = TRUE
   StartStates = {"QUEUED", "INITIALIZING", "INCOMPLETE", "DOWNLOADING", "UPLOADING", "PAUSED"}
   Dirs = {"up", "down"}
+  Lst2Kinds = {"none"}
+  WithLoad = FALSE
 CONSTRAINT SlowFocus
 INVARIANT TypeOK
 INVARIANT Mutex
